@@ -593,6 +593,27 @@ def fold_parser(m: Model, lexinfo, notation: str, deep=False):
                     results.append((False, 'grammar', case, f'parser: {kind} {val!r}; the Polish grammar gives {want[0]} {want[1]!r}'))
                     continue
             results.append((True, 'ok', case, f'{kind}'))
+    # history pass: one parser instance (frozen store) over the whole corpus twice -- every outcome equals the fresh-parser outcome
+    frozen_decl = declared + [L.Predicate(1, 0, 2)]
+
+    def outcome(parser, text):
+        try:
+            return ('ok', repr(parser(text)))
+        except ALLOWED_EXC as e:
+            return ('parse-error', type(e).__name__)
+        except Raised as e:
+            return ('other-error', f'Raised {e.text}')
+        except Exception as e:        # noqa: BLE001
+            return ('other-error', f'{type(e).__name__}: {e}')
+    corpus = list(dict.fromkeys(good + tricky))
+    fresh = {t: outcome(make(FrozenStore(frozen_decl)), t) for t in corpus}
+    shared = make(FrozenStore(frozen_decl))
+    for rnd in (1, 2):
+        for t in (corpus if rnd == 1 else reversed(corpus)):
+            got = outcome(shared, t)
+            ok = got == fresh[t]
+            results.append((ok, 'history' if not ok else 'ok', f'{notation} {t!r} (one parser re-used, pass {rnd})',
+                            f'gives {got[0]} {got[1]}; a fresh parser with the same declarations gives {fresh[t][0]} {fresh[t][1]}'))
     return results, sorted(consulted), len(inputs)
 
 
@@ -628,4 +649,31 @@ def fold_roundtrip(m: Model, lexinfo, deep=False):
             got = ('error', f'{type(e).__name__}: {e}')
         ok = got == ('ok', want)
         results.append((ok, text, f'the Polish rendering {text!r} of {want!r} parses to {got[1]!r}' if not ok else 'ok'))
+    # standard notation: well-formed infix strings (with / without the outer parentheses, extra whitespace) denote the sentence
+    # whose Polish form is given alongside; structures of the two runs are compared by their canonical text
+    makeS, LS, ES, tableS, MarkingS = build(m, 'standard', lexinfo, consulted)
+    PES = ES['ParseError']
+    pairs = [('A', 'a'), ('~A', 'Na'), ('A & B', 'Kab'), ('(A & B)', 'Kab'), ('A > B', 'Cab'), ('A V B', 'Aab'), ('(A & B) > A', 'CKaba'),
+             ('((A & B) > A)', 'CKaba'), ('~(A & B)', 'NKab'), ('~~A', 'NNa'), ('PA', 'Ma'), ('Fa', 'Fm'), ('Gab', 'Gmn'), ('a=b', 'Imn'), ('!a', 'Jm'),
+             ('LxFx', 'VxFx'), ('XxGxa', 'SxGxm'), ('LxXyGxy', 'VxSyGxy'), ('Lx(Fx & A)', 'VxKFxa'), ('LxFx & LxFx', 'KVxFxVxFx'),
+             ('(LxFx > XxFx)', 'CVxFxSxFx'), ('Lxx=a', 'VxIxm'), ('~a=b', 'NImn'), ('A & (B V A)', 'KaAba'), ('A1', 'a1'), ('Fa1', 'Fm1'),
+             ('Xx~Fx', 'SxNFx'), ('(A & B) & (B & A)', 'KKabKba'), ('LxXy(Gxy & Fx)', 'VxSyKGxyFx')]
+    variants = lambda t: [t, ' ' + t + '  ', t.replace(' ', '   '), t.replace('(', '( ').replace(')', ' )')] + ([f'({t})'] if ' ' in t and not t.startswith('(') and t[0] not in '~LXP' else [])
+    for std, pol in pairs:
+        try:
+            want = reference_polish(L, table, Marking, pol, declared)
+        except (Reject, ValueError, TypeError, KeyError) as e:
+            raise AnalysisError(f'parsefold: reference Polish form {pol!r} of {std!r} not readable: {e}')
+        for text in dict.fromkeys(variants(std)):
+            parser = makeS(Store([LS.Predicate(0, 0, 1)]))
+            try:
+                got = ('ok', parser(text))
+            except PES as e:
+                got = ('error', f'{type(e).__name__}: {e}')
+            except Raised as e:
+                got = ('error', f'Raised {e.text}')
+            except Exception as e:        # noqa: BLE001
+                got = ('error', f'{type(e).__name__}: {e}')
+            ok = got[0] == 'ok' and repr(got[1]) == repr(want)
+            results.append((ok, f'standard {text!r}', f'the infix string {text!r} denotes {want!r} but parses to {got[1]!r}' if not ok else 'ok'))
     return results, sorted(consulted)
